@@ -297,7 +297,11 @@ def run_script(case, stats):
 
         async def go():
             t = TcpTransportAsync(host, srv.port)
-            await t.connect(connect_timeout)
+            try:
+                await t.connect(connect_timeout)
+            except Exception as e:  # noqa
+                viol.append({"mechanism": "connect-raised:%s" % type(e).__name__, "detail": "async TcpTransportAsync(%r, port).connect(%r) to a listening peer raised %s: %s" % (host, connect_timeout, type(e).__name__, str(e)[:100])})
+                return
             i = 0
             dry = [0]
             guard = time.monotonic() + 60
@@ -379,6 +383,9 @@ def run_script(case, stats):
             loop.run_until_complete(go())
         finally:
             loop.close()
+        if any(v["mechanism"].startswith("connect-raised") for v in viol):
+            srv.ls.close()
+            return "script|%s|%r|%s" % (case["impl"], timeout, case["seed"]), viol, None
     srv.th.join(15)
     if srv.error and not viol:      # (after a violation the client stops early and the peer may see a broken pipe)
         raise RuntimeError("harness: script server failed: %r" % (srv.error,))
